@@ -82,6 +82,11 @@ pub enum Via {
     WrapperArgs,
 }
 
+/// names of the output directory / file inside a case's scratch directory (an underscore, a dot and a
+/// hyphen: characters a front end might treat specially)
+pub const OUT_DIR: &str = "out_dir.d-1";
+pub const OUT_FILE: &str = "one_file-1.pkl";
+
 #[derive(Clone, Debug, PartialEq, Serialize, Deserialize)]
 pub struct CliCase {
     pub protocol: Option<u8>,
@@ -106,6 +111,9 @@ pub struct CliCase {
     /// instead of a directory in the way; in single-file mode the output file itself is that path
     #[serde(default)]
     pub fault_devfull: bool,
+    /// long options are written `--option=value` (one token) instead of `--option value`
+    #[serde(default)]
+    pub eq_form: bool,
 }
 
 fn mutk_by_name(n: &str) -> Option<MutK> {
@@ -171,24 +179,33 @@ impl CliCase {
         v
     }
 
+    /// `--name value` or, with `eq_form`, `--name=value`
+    fn opt(&self, a: &mut Vec<String>, name: &str, value: String) {
+        if self.eq_form && name.starts_with("--") {
+            a.push(format!("{}={}", name, value));
+        } else {
+            a.extend([name.to_string(), value]);
+        }
+    }
+
     fn common_args(&self) -> Vec<String> {
         let mut a: Vec<String> = vec![];
         if let Some(p) = self.protocol {
-            a.extend([if self.short_opts { "-p".to_string() } else { "--protocol".to_string() }, p.to_string()]);
+            self.opt(&mut a, if self.short_opts { "-p" } else { "--protocol" }, p.to_string());
         }
         if let Some(s) = self.seed {
-            a.extend(["--seed".into(), s.to_string()]);
+            self.opt(&mut a, "--seed", s.to_string());
         }
         if let Some(m) = self.min {
-            a.extend(["--min-opcodes".into(), m.to_string()]);
+            self.opt(&mut a, "--min-opcodes", m.to_string());
         }
         if let Some(m) = self.max {
-            a.extend(["--max-opcodes".into(), m.to_string()]);
+            self.opt(&mut a, "--max-opcodes", m.to_string());
         }
         if let MutSpec::Names { names, repeated_flags } = &self.mutators {
             if *repeated_flags {
                 for n in names {
-                    a.extend(["--mutators".into(), n.clone()]);
+                    self.opt(&mut a, "--mutators", n.clone());
                 }
             } else {
                 a.push("--mutators".into());
@@ -196,7 +213,7 @@ impl CliCase {
             }
         }
         if let Some(r) = &self.rate {
-            a.extend(["--mutation-rate".into(), r.clone()]);
+            self.opt(&mut a, "--mutation-rate", r.clone());
         }
         if self.unsafe_mutations {
             a.push("--unsafe-mutations".into());
@@ -248,8 +265,8 @@ pub struct RunOut {
 pub fn invoke(ctx: &Ctx, cli: &str, c: &CliCase, dir: &str) -> Result<RunOut, String> {
     let _ = std::fs::remove_dir_all(dir);
     std::fs::create_dir_all(dir).map_err(|e| e.to_string())?;
-    let outdir = format!("{}/out", dir);
-    let outfile = format!("{}/one.pkl", dir);
+    let outdir = format!("{}/{}", dir, OUT_DIR);
+    let outfile = format!("{}/{}", dir, OUT_FILE);
     if c.preexisting {
         // a previous, larger result at the same path(s): it must be replaced, not partly overwritten
         let junk = vec![b'X'; 96 * 1024];
@@ -296,6 +313,8 @@ pub fn invoke(ctx: &Ctx, cli: &str, c: &CliCase, dir: &str) -> Result<RunOut, St
                 Mode::Batch { samples, .. } => {
                     if c.short_opts {
                         cmd.args(["-d", &outdir, "-s", &samples.to_string()]);
+                    } else if c.eq_form {
+                        cmd.args([format!("--dir={}", outdir), format!("--samples={}", samples)]);
                     } else {
                         cmd.args(["--dir", &outdir, "--samples", &samples.to_string()]);
                     }
@@ -364,7 +383,19 @@ pub fn invoke(ctx: &Ctx, cli: &str, c: &CliCase, dir: &str) -> Result<RunOut, St
             if let Some(r) = &c.rate {
                 cmd.env("INPUT_MUTATION_RATE", r);
             }
-            let flag = |on: bool| if on { truthy.clone() } else { "false".to_string() };
+            // a switch that is off: one of the spellings the script does not list as true (its `case` has
+            // exactly true|TRUE|True|1|yes|YES|Yes), chosen by the case's seed
+            let falsy = ["false", "", "False", "FALSE", "0", "no", "off", "none", "None", "n", "disabled", "10", "tru", "nyes"];
+            let pick = (c.seed.unwrap_or(0) as usize).wrapping_add(c.rayon_threads as usize);
+            let nth = std::cell::Cell::new(0usize);
+            let flag = |on: bool| {
+                nth.set(nth.get() + 1);
+                if on {
+                    truthy.clone()
+                } else {
+                    falsy[(pick / 3 + nth.get() * 5) % falsy.len()].to_string()
+                }
+            };
             cmd.env("INPUT_UNSAFE_MUTATIONS", flag(c.unsafe_mutations));
             cmd.env("INPUT_ALLOW_EXT", flag(c.allow_ext));
             cmd.env("INPUT_ALLOW_BUFFER", flag(c.allow_buffer));
@@ -402,7 +433,7 @@ pub fn check_cli(ctx: &Ctx, cli: &str, c: &CliCase, idx: usize, st: &mut Stats) 
                 if ro.status != Some(0) {
                     return Err(Fail::new(format!("{}:single:exit", via), format!("{} exited with {:?}: {}", c.brief(), ro.status, ro.stderr)));
                 }
-                let got = std::fs::read(format!("{}/one.pkl", dir)).map_err(|_| Fail::new(format!("{}:single:no-file", via), format!("{} exited 0 but wrote no file", c.brief())))?;
+                let got = std::fs::read(format!("{}/{}", dir, OUT_FILE)).map_err(|_| Fail::new(format!("{}:single:no-file", via), format!("{} exited 0 but wrote no file", c.brief())))?;
                 if c.seed.is_some() {
                     if !accept.contains(&got) {
                         return Err(Fail::new(
@@ -431,7 +462,7 @@ pub fn check_cli(ctx: &Ctx, cli: &str, c: &CliCase, idx: usize, st: &mut Stats) 
                 if ro.status != Some(0) {
                     return Err(Fail::new(format!("{}:batch:exit", via), format!("{} exited with {:?}: {}", c.brief(), ro.status, ro.stderr)));
                 }
-                let mut names: Vec<String> = std::fs::read_dir(format!("{}/out", dir))
+                let mut names: Vec<String> = std::fs::read_dir(format!("{}/{}", dir, OUT_DIR))
                     .map(|d| d.filter_map(|e| e.ok()).map(|e| e.file_name().to_string_lossy().to_string()).collect())
                     .unwrap_or_default();
                 names.sort();
@@ -445,7 +476,7 @@ pub fn check_cli(ctx: &Ctx, cli: &str, c: &CliCase, idx: usize, st: &mut Stats) 
                     return Err(Fail::new(format!("{}:batch:file-set", via), format!("{} wrote files {:?}, expected 0.pkl..{}.pkl", c.brief(), names.iter().take(14).collect::<Vec<_>>(), samples.saturating_sub(1))));
                 }
                 for i in 0..*samples {
-                    let got = std::fs::read(format!("{}/out/{}.pkl", dir, i)).map_err(|e| Fail::new("harness:read", e.to_string()))?;
+                    let got = std::fs::read(format!("{}/{}/{}.pkl", dir, OUT_DIR, i)).map_err(|e| Fail::new("harness:read", e.to_string()))?;
                     if c.seed.is_some() {
                         if !accept.contains(&got) {
                             return Err(Fail::new(
@@ -533,9 +564,9 @@ pub fn cli_strategy(wrapper: bool) -> BoxedStrategy<CliCase> {
     };
     (
         (proptest::option::weighted(0.6, 0u8..6), proptest::option::weighted(0.9, any::<u64>()), range, names),
-        (rate, any::<bool>(), any::<bool>(), any::<bool>(), mode, proptest::sample::select(vec![1u8, 2, 5, 16]), via, proptest::bool::weighted(0.3), proptest::bool::weighted(0.25), (any::<bool>(), proptest::bool::weighted(0.06))),
+        (rate, any::<bool>(), any::<bool>(), any::<bool>(), mode, proptest::sample::select(vec![1u8, 2, 5, 16]), via, proptest::bool::weighted(0.3), proptest::bool::weighted(0.25), (any::<bool>(), proptest::bool::weighted(0.06), proptest::bool::weighted(0.3))),
     )
-        .prop_map(|((protocol, seed, (min, max), mutators), (rate, u, e, b, mode, rayon_threads, via, short_opts, preexisting, (fault_devfull, single_fault)))| {
+        .prop_map(|((protocol, seed, (min, max), mutators), (rate, u, e, b, mode, rayon_threads, via, short_opts, preexisting, (fault_devfull, single_fault, eq_form)))| {
             let single = mode_is_single(&mode);
             CliCase {
             protocol,
@@ -555,6 +586,7 @@ pub fn cli_strategy(wrapper: bool) -> BoxedStrategy<CliCase> {
             // small share of the cases write to an unwritable path
             fault_devfull: if single { single_fault } else { fault_devfull },
             preexisting: preexisting && !(single && single_fault),
+            eq_form,
             }
         })
         .boxed()
@@ -843,10 +875,10 @@ pub fn check_cli_flags(ctx: &Ctx, cli: &str, c: &CliCase, idx: usize, st: &mut S
     let dir = format!("{}/work/c10-{}-{}", ctx.verif_dir, std::process::id(), idx);
     let ro = invoke(ctx, cli, c, &dir);
     let mut files: Vec<(String, Vec<u8>)> = Vec::new();
-    if let Ok(b) = std::fs::read(format!("{}/one.pkl", dir)) {
-        files.push(("one.pkl".into(), b));
+    if let Ok(b) = std::fs::read(format!("{}/{}", dir, OUT_FILE)) {
+        files.push((OUT_FILE.into(), b));
     }
-    if let Ok(rd) = std::fs::read_dir(format!("{}/out", dir)) {
+    if let Ok(rd) = std::fs::read_dir(format!("{}/{}", dir, OUT_DIR)) {
         for e in rd.filter_map(|e| e.ok()) {
             if let Ok(b) = std::fs::read(e.path()) {
                 files.push((e.file_name().to_string_lossy().to_string(), b));
@@ -904,7 +936,7 @@ fn batch_peak(ctx: &Ctx, cli: &str, c: &RssCase, samples: usize, tag: &str) -> R
     std::fs::create_dir_all(&dir).map_err(|e| e.to_string())?;
     let rss_file = format!("{}/rss", dir);
     let out = Command::new("/usr/bin/time")
-        .args(["-f", "%M", "-o", &rss_file, cli, "--dir", &format!("{}/out", dir), "--samples", &samples.to_string()])
+        .args(["-f", "%M", "-o", &rss_file, cli, "--dir", &format!("{}/{}", dir, OUT_DIR), "--samples", &samples.to_string()])
         .args(["--protocol", &c.protocol.to_string(), "--seed", &c.seed.to_string(), "--min-opcodes", &c.min.to_string(), "--max-opcodes", &c.max.to_string()])
         .env("RAYON_NUM_THREADS", c.rayon_threads.to_string())
         .stdout(Stdio::null())
@@ -919,7 +951,7 @@ fn batch_peak(ctx: &Ctx, cli: &str, c: &RssCase, samples: usize, tag: &str) -> R
         let rss: u64 = std::fs::read_to_string(&rss_file).map_err(|e| e.to_string())?.lines().last().unwrap_or("").trim().parse().map_err(|_| "unreadable %M".to_string())?;
         let mut total = 0u64;
         let mut files = 0usize;
-        for e in std::fs::read_dir(format!("{}/out", dir)).map_err(|e| e.to_string())?.filter_map(|e| e.ok()) {
+        for e in std::fs::read_dir(format!("{}/{}", dir, OUT_DIR)).map_err(|e| e.to_string())?.filter_map(|e| e.ok()) {
             total += e.metadata().map(|m| m.len()).unwrap_or(0);
             files += 1;
         }
@@ -1004,4 +1036,96 @@ pub fn replay_cli_rss(ctx: &Ctx, c: &RssCase) -> Result<(), Fail> {
     let cli = build_cli(ctx).map_err(|e| Fail::new("harness:build", e))?;
     let mut st = Stats::default();
     check_cli_rss(ctx, &cli, c, &mut st)
+}
+
+// ------------------------------------------------------------------------------------------
+// C14 through the Python front end: a long-running fuzzing process must not retain what it generated
+// ------------------------------------------------------------------------------------------
+
+#[derive(Clone, Debug, Serialize, Deserialize)]
+pub struct PyMemCase {
+    pub protocol: u8,
+    pub seed: u64,
+    pub calls: usize,
+}
+
+pub fn check_py_mem(ctx: &Ctx, pkg_parent: &str, c: &PyMemCase, st: &mut Stats) -> Result<(), Fail> {
+    let py = std::env::var("VERIF_PYTHON_VT").unwrap_or_else(|_| "python3-vt".to_string());
+    let mut last = String::new();
+    let mut res: Option<serde_json::Value> = None;
+    for _attempt in 0..2 {
+        let out = Command::new(&py)
+            .arg(format!("{}/py/pymem.py", ctx.verif_dir))
+            .args([pkg_parent, &c.protocol.to_string(), &(c.seed % 1_000_000_007).to_string(), &c.calls.to_string()])
+            .output()
+            .map_err(|e| Fail::new("harness:pymem", format!("cannot run {}: {}", py, e)))?;
+        if out.status.success() {
+            res = serde_json::from_slice(&out.stdout).ok();
+            if res.is_some() {
+                break;
+            }
+        }
+        let err = String::from_utf8_lossy(&out.stderr).to_string();
+        last = err.chars().rev().take(500).collect::<Vec<_>>().into_iter().rev().collect::<String>().replace('\n', " | ");
+    }
+    let Some(r) = res else {
+        return Err(Fail::new("harness:pymem", format!("pymem.py failed: ...{}", last)));
+    };
+    let total = r["bytes_returned"].as_i64().unwrap_or(0);
+    let py_growth = r["py_growth"].as_i64().unwrap_or(0);
+    let rss_growth = r["rss_growth"].as_i64().unwrap_or(0);
+    let alive = r["dropped_alive"].as_i64().unwrap_or(0);
+    st.evaluations += c.calls as u64;
+    st.add("Python front end: mutate()/generate_from_bytes() calls in one measured process", c.calls as u64);
+    st.sample(|| json!({"python_process": format!("P{} seed {}", c.protocol, c.seed), "measured": r}));
+    if total < 4 << 20 {
+        return Err(Fail::new("harness:pymem", format!("only {} bytes were returned: too little to tell retention from noise", total)));
+    }
+    st.nontrivial(util::digest_str(&format!("pymem{}{}", c.protocol, c.seed)));
+    let what = format!("Python front end, protocol {} seed {}: {} calls returned {} bytes", c.protocol, c.seed, c.calls, total);
+    if py_growth > total / 2 {
+        return ctx.fail(st, Fail::new("python-retains-results", format!("{}; Python-level allocations grew by {} bytes (tracemalloc): the results (or their inputs) are retained", what, py_growth)));
+    }
+    if rss_growth > total / 2 + (16 << 20) {
+        return ctx.fail(st, Fail::new("python-process-memory-grows", format!("{}; the resident set grew by {} bytes", what, rss_growth)));
+    }
+    if alive > 0 {
+        return ctx.fail(
+            st,
+            Fail::new("python-dropped-mutator-alive", format!("{}; {} of {} PickleMutator objects that were used once and dropped are still alive after gc.collect()", what, alive, r["dropped_total"])),
+        );
+    }
+    Ok(())
+}
+
+pub fn run_c14_python(ctx: &Ctx, out: &mut Outcome) {
+    if out.failed() || out.inconclusive.is_some() {
+        return;
+    }
+    let pkg = match build_python(ctx) {
+        Ok(p) => p,
+        Err(e) => {
+            out.inconclusive = Some(e);
+            return;
+        }
+    };
+    let c = PyMemCase { protocol: ((ctx.seed + 2) % 6) as u8, seed: ctx.seed.wrapping_mul(131).wrapping_add(7), calls: if ctx.thorough() { 60_000 } else { 8_000 } };
+    let mut st = Stats::default();
+    let r = check_py_mem(ctx, &pkg, &c, &mut st);
+    for smp in st.samples.drain(..) {
+        out.stats.samples.insert(0, smp);
+    }
+    out.stats.samples.truncate(crate::runner::MAX_SAMPLES);
+    out.stats.merge(st);
+    match r {
+        Ok(()) => {}
+        Err(f) if f.sig.starts_with("harness:") => out.inconclusive = Some(f.msg),
+        Err(f) => out.violation = Some(Violation { fail: f, case: json!({"py_mem": c}) }),
+    }
+}
+
+pub fn replay_py_mem(ctx: &Ctx, c: &PyMemCase) -> Result<(), Fail> {
+    let pkg = build_python(ctx).map_err(|e| Fail::new("harness:build", e))?;
+    let mut st = Stats::default();
+    check_py_mem(ctx, &pkg, c, &mut st)
 }
